@@ -178,6 +178,28 @@ PROPS = {
                    'their stated preconditions. Not covered yet: compressed proofs, serde decoding, STARK entry points.',
         remainder=['verify_compressed / decompress (HashMap keyed by proof data)', 'byte decoders (util/serialization)', 'starky verifier'],
     ),
+    'C02': dict(
+        title='No accepted proof exists for an assignment that violates the circuit',
+        design_ref='DESIGN.md section 4 / C02',
+        bounded=[('plonky2', ['c02_'])],
+        vspecs=['contracts/C02/gate_constraints.vspec', 'contracts/C03/plonk_verifier.vspec', 'contracts/C08/lookup_selectors.vspec'],
+        level_text='Unbounded deductive proof (Verus/Z3) of three of the mechanisms the property names: (i) evaluate_gate_constraints returns, in every '
+                   'slot j, the sum over EVERY gate type of the circuit of that gate\'s j-th filtered constraint, each taken with its own selector column '
+                   'and group range (no gate skipped, nothing overwritten), and Gate::eval_filtered multiplies the gate\'s own evaluator (run on the '
+                   'constants without the selector and lookup-selector prefixes) by compute_filter(row, group, constants[selector_index], '
+                   'num_selectors > 1); (ii) the verifier checks vanishing(zeta) == Z_H(zeta) * t(zeta) for EVERY challenge index '
+                   '(verify_with_challenges, shared with C03); (iii) the lookup selectors are placed for every table (shared with C08). '
+                   'The soundness argument over these mechanisms, the permutation argument and the adversarial-prover half are covered by a bounded '
+                   'stand-in only.',
+        level_note='Trusted: Verus+Z3; Gate::eval_unfiltered and compute_filter as uninterpreted functions (T10); dyn-Gate dispatch to the default '
+                   'eval_filtered (T12); common data well-formed (common_gates_ok). Bounded harness: 3 circuit families (assertions / Poseidon + '
+                   'exponentiation / lookups + random access), every row x 13 columns, single-cell and copy-class corruptions of the witness handed to '
+                   'prove_with_partition_witness, with an independent native oracle deciding whether the assignment violates the circuit. Degenerate '
+                   'strategies that need prover hooks (all-zero Z, altered quotient) are NOT exercised.',
+        remainder=['PLONK soundness (Schwartz-Zippel) over the checked identities', 'permutation argument: Forest / wire_partition / get_sigma_map (bounded harness only)',
+                   'eval_vanishing_poly: L_0 term, partial products (bounded harness only)', 'PartitionWitness::set_target_returning_rep',
+                   'adversarial strategies needing prover hooks (all-zero Z, per-challenge quotient alteration): not exercised'],
+    ),
     'C08': dict(
         title='Table lookups are provable exactly for pairs contained in the table',
         design_ref='DESIGN.md section 4 / C08',
